@@ -382,7 +382,7 @@ func scalingFamilies() []scaleFamily {
 		{"nested-objects", 200, single(func(w wf, n int) {
 			w("GET /x\n 200\n  %s1%s\n", strings.Repeat("{\"a\":", n), strings.Repeat("}", n))
 		})},
-		{"included-files", 500, func(n int) (string, map[string][]byte) {
+		{"included-files", 600, func(n int) (string, map[string][]byte) {
 			files := map[string][]byte{}
 			var b strings.Builder
 			b.WriteString("JSIGHT 0.3\n")
@@ -510,6 +510,12 @@ func scalingMonitor(c *fw.Ctx, pool *proc.Pool, ops []string) {
 		measured++
 		ratio := float64(t[1]) / float64(max64(t[0], 1000)) // below a millisecond the smaller measurement is noise
 		table[name] = map[string]interface{}{"bytes": o.bytes, "cpu_ms": []float64{float64(t[0]) / 1000, float64(t[1]) / 1000}, "ratio_for_4x": fmt.Sprintf("%.1f", ratio), "verdicts": o.class}
+		// every family is a legal document; the long chains of types are the only ones the library may refuse (its limits)
+		for k := 0; k < 2; k++ {
+			if o.class[k] != "accepted" && !strings.Contains(name, "chain") && name != "type-fan" { // (one type that names 8000 others is beyond the limit on reached types, 4096)
+				c.Violate("scaling:legal-document-rejected:"+name, fmt.Sprintf("%s repeated %d times (%d bytes) is a legal document and was rejected: %s", name, famN(fams, name)*[]int{1, 4}[k], o.bytes[k], o.class[k]), replayOf(jobs[fmt.Sprintf("%s/%d", name, k)], nil))
+			}
+		}
 		if ops != nil && (o.class[0] != "accepted" || o.class[1] != "accepted") {
 			continue
 		}
